@@ -53,10 +53,11 @@ Section Equal.
   Proof.
     unfold g_lcd_post, post_model, dedup_model, dict_of. cbv zeta. rewrite pbind_assoc. apply pbind_ext.
     - apply py_for_ext. intros path [[d seen] deps]. unfold step_path. cbn [fst snd]. apply pbind_ext.
-      + apply py_for_ext. intros [s d2] [[d0 lp] ls]. unfold step_edge. cbn [fst snd py_bound pbind].
+      + apply py_for_ext. intros [s d2] [d0 lp]. unfold step_edge. cbn [fst snd py_bound pbind].
         destruct (lat dg s d2) as [w|e]; [|reflexivity]. cbn [pbind]. unfold zback.
         destruct (Z.leb off s); reflexivity.
-      + intros [[d1 lp] ls]. cbn [fst snd]. destruct d1 as [d1|]; [|reflexivity]. cbn [py_bound pbind].
+      + intros [d1 lp]. cbn [fst snd]. destruct d1 as [d1|]; [|reflexivity]. cbn [py_bound pbind].
+        rewrite (py_for_fold _ (fun a (il : Z * T) => nadd N a (snd il))) by (intros [? ?] ?; reflexivity).
         unfold zback. destruct (Z.leb off d1); cbn [pbind]; (destruct (py_set_mem _ _ _); reflexivity).
     - intros [[d seen] deps]. cbn [pbind snd]. rewrite <- (pbind_ok_id (py_for _ _ (step_item get heap))). apply pbind_ext; [|reflexivity].
       apply py_for_ext. intros [ls il] d0. unfold step_item, item_value. cbn [fst snd]. rewrite pbind_assoc. apply pbind_ext; [reflexivity|].
@@ -149,7 +150,7 @@ Theorem C05gen_reported_entries_are_stream_cycles : forall (T : Type) (N : NumOp
   g_lcd_post N get lat heap dg (Z.of_nat (lcd_offset (renumber k))) (all_nodes (model_paths N dep fwd pidx fd (renumber k))) [] = POk d ->
   In (key, (root, deps, latency)) d ->
   exists i q, i < List.length k /\ spath T (stream_E N dep fwd pidx fd (body N k)) i (i + List.length k) q /\
-    latency = fold_left (nadd N) (map snd q) (n0 N) /\
+    latency = sum_sorted N (cycle_members N k q) /\
     key = lcd_key (cycle_members N k q) /\
     Forall2 (fun ll rw => node_by_lineno get heap (fst ll) = POk (fst rw) /\ snd rw = snd ll) (cycle_members N k q) deps /\
     exists first rest, cycle_members N k q = first :: rest /\ node_by_lineno get heap (fst first) = POk root.
@@ -184,6 +185,34 @@ Proof.
   exact (proj1 (dict_of_spec get heap _ d H)).
 Qed.
 Print Assumptions C05gen_one_entry_per_key.
+
+(* ---- (F) EVERY numeric instance (binary64 included), any delivered paths in any order: the latency of a reported entry is
+   0.0 + lat_1 + ... + lat_n, added left to right over its OWN dependencies list [(node_1, lat_1), ..., (node_n, lat_n)] (the code
+   sums lat_path after lat_path.sort()).  So two runs -- sequential, or parallel with any worker count and schedule -- that report
+   an entry with the same dependencies report the same latency bit for bit; before the repair the sum ran in path order and the
+   rotation of a cycle that happened to be delivered first decided the last bit (Props/C16float.v: 0.1, 0.3, 0.7) *)
+From OV Require Import Proofs.LcdFloat.
+Theorem C05gen_latency_is_sum_of_dependencies : forall (T : Type) (N : NumOps T) (I : Type) (get : I -> Z) (G : Type)
+    (lat : G -> Z -> Z -> pres T) heap dg off all_paths d key root deps latency,
+  g_lcd_post N get lat heap dg off all_paths [] = POk d -> In (key, (root, deps, latency)) d ->
+  latency = fold_left (fun a rw => nadd N a (snd rw)) deps (n0 N).
+Proof.
+  intros T N I get G lat heap dg off all_paths d key root deps latency H Hin. rewrite g_lcd_post_eq in H.
+  exact (post_model_latency_is_sum_of_dependencies N get heap (lat dg) off all_paths d key root deps latency H Hin).
+Qed.
+Print Assumptions C05gen_latency_is_sum_of_dependencies.
+
+Corollary C05gen_same_dependencies_same_latency : forall (T : Type) (N : NumOps T) (I : Type) (get : I -> Z) (G : Type)
+    (lat : G -> Z -> Z -> pres T) heap dg off all_paths all_paths' d d' key key' root root' deps latency latency',
+  g_lcd_post N get lat heap dg off all_paths [] = POk d -> g_lcd_post N get lat heap dg off all_paths' [] = POk d' ->
+  In (key, (root, deps, latency)) d -> In (key', (root', deps, latency')) d' -> latency = latency'.
+Proof.
+  intros T N I get G lat heap dg off all_paths all_paths' d d' key key' root root' deps latency latency' H H' Hin Hin'.
+  rewrite (C05gen_latency_is_sum_of_dependencies T N I get G lat heap dg off all_paths d key root deps latency H Hin).
+  rewrite (C05gen_latency_is_sum_of_dependencies T N I get G lat heap dg off all_paths' d' key' root' deps latency' H' Hin').
+  reflexivity.
+Qed.
+Print Assumptions C05gen_same_dependencies_same_latency.
 
 (* _get_node_by_lineno returns the FIRST object of self.kernel with the line number, IndexError when there is none *)
 Theorem C05gen_get_node_by_lineno_spec : forall (I : Type) (get : I -> Z) heap z,
